@@ -76,6 +76,9 @@ peer socket actually read) -/
 def ckOp (buffered : Bool) (op : String) (res : String) (ds dd : Nat) (dgs : List String) (auto : Bool)
     (accSent accDropped : Nat × Nat) (seen : List String) : Option Viol :=
   if res == "panic" then some ⟨"C20", "a socket sink call panicked"⟩ else
+  if res == "blocked" then some ⟨"C13", "a socket sink call did not return (blocked for 3 s on a socket whose peer keeps reading)"⟩ else
+  if buffered && res.startsWith "ok" && dd > 0 then
+    some ⟨"C06+C07", "the call returned Ok although a send attempted during it was refused by the socket"⟩ else
   if !buffered && (op.startsWith "e" || op.startsWith "g") then
     let m := if op.startsWith "e" then unhex (op.drop 1).toString else genMetric ((op.drop 1).toString.toNat?.getD 0)
     if ds + dd ≠ 1 then some ⟨"C13", "an unbuffered emit did not make exactly one send attempt"⟩
@@ -109,7 +112,7 @@ def runSock (prop : String) (f : List String) (obsS : String) : Verdict :=
     let auto := drainS == "a"
     let ops := splitList opsS ","
     let obs := obsS.splitOn ";"
-    if obs.length ≠ ops.length + 2 then badCase else
+    if obs.length ≠ ops.length + 2 && !(obs.any (·.startsWith "stuck")) then badCase else
     let rec go (s : SSt) (ops obs : List String) (mo io : List String) (v : Option Viol)
         (accS accD : Nat × Nat) (seen : List String) (opsRun : List (Op B)) (implObs : List (OpObs B)) (clean : Bool) :
         (SSt × List String × List String × Option Viol × List String × List (Op B) × List (OpObs B) × Bool) :=
